@@ -52,6 +52,16 @@ impl Collect for Nop {
     }
 }
 
+// #[instrument]ed functions: with the log feature and no collector their span steps are logged like any other span's
+#[tracing::instrument]
+fn inst_sync(x: u32) -> u32 {
+    x + 1
+}
+#[tracing::instrument(level = "debug", target = "tgt::inst")]
+async fn inst_async(x: u32) -> u32 {
+    x + 1
+}
+
 fn t2l(b: &Value) {
     log::set_logger(&REC_LOGGER).unwrap();
     log::set_max_level(log::LevelFilter::Trace);
@@ -77,6 +87,22 @@ fn t2l(b: &Value) {
                     Ok(e) => line["evals"] = json!(e),
                     Err(p) => line["panic"] = json!(p),
                 }
+            }
+            // `instr`: one call of an attributed function (sync, or async polled to completion); logged like a span site
+            "instr" => {
+                if st["which"] == "async" {
+                    let mut f = Box::pin(inst_async(7));
+                    let w = vh_common::noop_waker();
+                    let mut cx = std::task::Context::from_waker(&w);
+                    let _ = std::future::Future::poll(f.as_mut(), &mut cx);
+                } else {
+                    inst_sync(7);
+                }
+                line["op"] = json!("site");
+                line["cs"] = json!(0);
+                line["decl"] = st["decl"].clone();
+                line["slots"] = json!([]);
+                line["evals"] = json!([]);
             }
             "scoped_on" => guards.push(dispatch::set_default(&Dispatch::new(Nop))),
             "scoped_off" => {
